@@ -737,3 +737,177 @@ Proof.
 Qed.
 
 Print Assumptions build_http_response_is_Builders.
+
+(* ------------------------------------------------------------------ the canned packets, okResponse,
+   redirects and exception responses are in the builders' domain *)
+Ltac wf_args_closed H :=
+  unfold wf_args; cbv zeta;
+  cbn [a_status a_version a_reason a_headers a_body a_conn_close a_no_cl mk_args hdrs_or_empty
+       TUNNEL_ESTABLISHED_ARGS TUNNEL_UNSUPPORTED_SCHEME_ARGS AUTH_FAILED_ARGS BAD_REQUEST_ARGS
+       NOT_FOUND_ARGS NOT_IMPLEMENTED_ARGS BAD_GATEWAY_ARGS redirect_args];
+  rewrite !andb_true_iff; repeat split; try (vm_compute; reflexivity);
+  cbn [forallb fst snd]; unfold wf_agent in H; rewrite ?H; vm_compute; reflexivity.
+
+Lemma BAD_REQUEST_wf_args agent connect : wf_agent agent = true -> wf_args connect (BAD_REQUEST_ARGS agent) = true.
+Proof. intros H. destruct connect; wf_args_closed H. Qed.
+Lemma NOT_FOUND_wf_args agent connect : wf_agent agent = true -> wf_args connect (NOT_FOUND_ARGS agent) = true.
+Proof. intros H. destruct connect; wf_args_closed H. Qed.
+Lemma NOT_IMPLEMENTED_wf_args agent connect : wf_agent agent = true -> wf_args connect (NOT_IMPLEMENTED_ARGS agent) = true.
+Proof. intros H. destruct connect; wf_args_closed H. Qed.
+Lemma AUTH_FAILED_wf_args agent connect : wf_agent agent = true -> wf_args connect (AUTH_FAILED_ARGS agent) = true.
+Proof. intros H. destruct connect; wf_args_closed H. Qed.
+Lemma BAD_GATEWAY_wf_args agent connect : wf_agent agent = true -> wf_args connect (BAD_GATEWAY_ARGS agent) = true.
+Proof. intros H. destruct connect; wf_args_closed H. Qed.
+Lemma UNSUPPORTED_SCHEME_wf_args connect : wf_args connect TUNNEL_UNSUPPORTED_SCHEME_ARGS = true.
+Proof. destruct connect; vm_compute; reflexivity. Qed.
+(* the tunnel acknowledgement is a 2xx answer to CONNECT: no body, no framing headers needed *)
+Lemma TUNNEL_ESTABLISHED_wf_args : wf_args true TUNNEL_ESTABLISHED_ARGS = true.
+Proof. vm_compute; reflexivity. Qed.
+
+Theorem canned_packets_wf agent : wf_agent agent = true ->
+  (forall connect, wf_response connect (BAD_REQUEST_RESPONSE_PKT agent) = true) /\
+  (forall connect, wf_response connect (NOT_FOUND_RESPONSE_PKT agent) = true) /\
+  (forall connect, wf_response connect (NOT_IMPLEMENTED_RESPONSE_PKT agent) = true) /\
+  (forall connect, wf_response connect (PROXY_AUTH_FAILED_RESPONSE_PKT agent) = true) /\
+  (forall connect, wf_response connect (BAD_GATEWAY_RESPONSE_PKT agent) = true) /\
+  (forall connect, wf_response connect PROXY_TUNNEL_UNSUPPORTED_SCHEME = true) /\
+  wf_response true PROXY_TUNNEL_ESTABLISHED_RESPONSE_PKT = true.
+Proof.
+  intros H. repeat split; intros; apply build_http_response_wf;
+    auto using BAD_REQUEST_wf_args, NOT_FOUND_wf_args, NOT_IMPLEMENTED_wf_args, AUTH_FAILED_wf_args,
+               BAD_GATEWAY_wf_args, UNSUPPORTED_SCHEME_wf_args, TUNNEL_ESTABLISHED_wf_args.
+Qed.
+
+(* dict_set keeps a header dict legal *)
+Lemma dict_has_dict_set_other (k k' : bytes) (v : bytes) h :
+  bytes_eqb k' k = false -> dict_has k' (dict_set k v h) = dict_has k' h.
+Proof.
+  intros Hk. unfold dict_has. induction h as [|[k0 v0] h IH]; cbn [dict_set dict_get].
+  - now rewrite Hk.
+  - destruct (bytes_eqb k k0) eqn:E; cbn [dict_get].
+    + apply bytes_eqb_eq in E. subst k0. now rewrite Hk.
+    + destruct (bytes_eqb k' k0); [reflexivity|exact IH].
+Qed.
+
+Lemma bytes_eqb_sym (x y : bytes) : bytes_eqb x y = bytes_eqb y x.
+Proof.
+  destruct (bytes_eqb x y) eqn:E, (bytes_eqb y x) eqn:F; try reflexivity.
+  - apply bytes_eqb_eq in E. subst. rewrite bytes_eqb_refl in F. discriminate.
+  - apply bytes_eqb_eq in F. subst. rewrite bytes_eqb_refl in E. discriminate.
+Qed.
+
+Lemma nodup_keys_dict_set k (v : bytes) h : nodup_keys h = true -> nodup_keys (dict_set k v h) = true.
+Proof.
+  induction h as [|[k0 v0] h IH]; cbn [dict_set nodup_keys]; [reflexivity|].
+  intros H. apply andb_true_iff in H as [H1 H2].
+  destruct (bytes_eqb k k0) eqn:E; cbn [nodup_keys].
+  - apply bytes_eqb_eq in E. subst k0. now rewrite H1, H2.
+  - rewrite dict_has_dict_set_other by (rewrite bytes_eqb_sym; exact E).
+    rewrite H1. cbn [andb]. apply IH, H2.
+Qed.
+
+Lemma has_te_dict_set k v h : bytes_eqb (lower k) L_TRANSFER_ENCODING = false ->
+  has_te (dict_set k v h) = has_te h.
+Proof.
+  intros Hk. unfold has_te. induction h as [|[k0 v0] h IH]; cbn [dict_set existsb fst].
+  - now rewrite Hk.
+  - destruct (bytes_eqb k k0) eqn:E; cbn [existsb fst].
+    + apply bytes_eqb_eq in E. subst k0. reflexivity.
+    + now rewrite IH.
+Qed.
+
+Lemma no_cl_conj (X : bytes) (b : bool) (hs : hdrs) :
+  forallb (fun kv => negb (bytes_eqb (lower (fst kv)) L_CONTENT_LENGTH)) hs = true ->
+  forallb (fun kv => if bytes_eqb (lower (fst kv)) L_CONTENT_LENGTH
+                     then b && bytes_eqb (fst kv) X else true) hs = true.
+Proof.
+  induction hs as [|[k v] hs IH]; [reflexivity|].
+  cbn [forallb fst]. intros H. apply andb_true_iff in H as [Ha Hb]. apply negb_true_iff in Ha.
+  rewrite Ha. cbn [andb]. apply IH, Hb.
+Qed.
+
+Lemma ok_args_wf hs body cc :
+  wf_user_headers (Some hs) = true ->
+  wf_args false (mk_args 200 (Some (bytes_of_string "OK")) (Some hs) body cc false) = true.
+Proof.
+  unfold wf_user_headers, wf_args. cbv zeta.
+  cbn [a_status a_version a_reason a_headers a_body a_conn_close a_no_cl mk_args hdrs_or_empty].
+  rewrite !andb_true_iff. intros (((H1 & H2) & H3) & H4).
+  repeat split; try (vm_compute; reflexivity); auto.
+  apply no_cl_conj, H4.
+Qed.
+
+(* okResponse, compressed or not, for every content, gzip function and threshold *)
+Theorem okResponse_wf gz content headers compress min_len cc :
+  wf_user_headers headers = true ->
+  wf_response false (okResponse gz content headers compress min_len cc false) = true.
+Proof.
+  intros H. unfold okResponse. apply build_http_response_wf. unfold okResponse_args.
+  assert (Hs : wf_user_headers (Some (hdrs_or_empty headers)) = true) by (destruct headers; exact H).
+  destruct (compress && truthy content && (min_len <? Z.of_nat (length (bytes_or_empty content)))%Z).
+  - apply ok_args_wf. unfold wf_user_headers in *. cbv zeta in *. cbn [hdrs_or_empty] in *.
+    rewrite !andb_true_iff in *. destruct Hs as (((H1 & H2) & H3) & H4). repeat split.
+    + now apply nodup_keys_dict_set.
+    + apply dict_set_forallb; [vm_compute; reflexivity|exact H2].
+    + rewrite has_te_dict_set by (vm_compute; reflexivity). exact H3.
+    + apply dict_set_forallb; [vm_compute; reflexivity|exact H4].
+  - destruct headers as [hs|].
+    + apply ok_args_wf. exact H.
+    + vm_compute. reflexivity.
+Qed.
+
+(* the body the client decodes is the content (or its compressed form, announced by Content-Encoding) *)
+Theorem okResponse_body gz content headers compress min_len cc :
+  wf_user_headers headers = true ->
+  exists v, recognise false false (okResponse gz content headers compress min_len cc false) = Some v /\
+    framing_ok v = true /\ rv_status v = 200 /\
+    rv_framing v = Counted (len (rv_body v)) /\
+    rv_body v = (if compress && truthy content && (min_len <? Z.of_nat (length (bytes_or_empty content)))%Z
+                 then (if truthy (Some (gz (bytes_or_empty content))) then gz (bytes_or_empty content) else [])
+                 else (if truthy content then bytes_or_empty content else [])).
+Proof.
+  intros H. unfold okResponse.
+  assert (Hwf : wf_args false (okResponse_args gz content headers compress min_len cc false) = true).
+  { unfold okResponse_args.
+    assert (Hs : wf_user_headers (Some (hdrs_or_empty headers)) = true) by (destruct headers; exact H).
+    destruct (compress && truthy content && (min_len <? Z.of_nat (length (bytes_or_empty content)))%Z).
+    - apply ok_args_wf. unfold wf_user_headers in *. cbv zeta in *. cbn [hdrs_or_empty] in *.
+      rewrite !andb_true_iff in *. destruct Hs as (((H1 & H2) & H3) & H4). repeat split.
+      + now apply nodup_keys_dict_set.
+      + apply dict_set_forallb; [vm_compute; reflexivity|exact H2].
+      + rewrite has_te_dict_set by (vm_compute; reflexivity). exact H3.
+      + apply dict_set_forallb; [vm_compute; reflexivity|exact H4].
+    - destruct headers as [hs|]; [apply ok_args_wf; exact H|vm_compute; reflexivity]. }
+  destruct (build_http_response_recognised false _ Hwf) as (v & E & F & _ & Hst & _ & _ & Hb & Hf).
+  exists v. split; [exact E|]. split; [exact F|].
+  unfold okResponse_args in *.
+  destruct (compress && truthy content && (min_len <? Z.of_nat (length (bytes_or_empty content)))%Z);
+    cbn [a_status a_body a_no_cl mk_args status_no_body] in *; unfold intended_body in *;
+    cbn [a_body mk_args] in *; rewrite Hst, Hf, Hb; repeat split; reflexivity.
+Qed.
+
+Theorem redirect_wf location : forallb is_field_char location = true ->
+  wf_response false (permanentRedirectResponse location) = true /\
+  wf_response false (seeOthersResponse location) = true.
+Proof.
+  intros H. split; apply build_http_response_wf; wf_args_closed H.
+Qed.
+
+(* HttpRequestRejected(status, reason, headers, body).response(), ProxyAuthenticationFailed,
+   ProxyConnectionFailed: whatever response() returns is well-formed *)
+Theorem exn_response_wf connect agent e r :
+  wf_proto_exn connect agent e = true -> exn_response agent e = Some r -> wf_response connect r = true.
+Proof.
+  destruct e as [k|status reason headers body| | |[r'|]]; cbn [wf_proto_exn exn_response]; intros Hw He.
+  - discriminate.
+  - destruct status as [s|]; [|discriminate]. destruct (s =? 0)%Z; [discriminate|].
+    inversion He; subst. now apply build_http_response_wf.
+  - inversion He; subst. apply build_http_response_wf. now apply AUTH_FAILED_wf_args.
+  - inversion He; subst. apply build_http_response_wf. now apply BAD_GATEWAY_wf_args.
+  - inversion He; subst. exact Hw.
+  - discriminate.
+Qed.
+
+Print Assumptions canned_packets_wf.
+Print Assumptions okResponse_wf.
+Print Assumptions exn_response_wf.
